@@ -50,6 +50,10 @@ PROPS["C20"] = {
 		_c20("gos", 0, 1), _c20("gos", 1, 1), _c20("gos", 2, 2), _c20("gos", 2, 3), _c20("gos", 3, 3),
 		_c20("survive", 2, 2), _c20("survive", 2, 3), _c20("survive", 3, 3),
 		_c20("add", 3, 4, "thorough"), _c20("add", 4, 4, "thorough"), _c20("get", 4, 4, "thorough"), _c20("gos", 4, 4, "thorough"), _c20("survive", 4, 4, "thorough"),
+		_c20("add", 5, 5, "thorough", 2400), _c20("get", 5, 5, "thorough", 2400), _c20("gos", 5, 5, "thorough", 2400), _c20("survive", 5, 5, "thorough", 2400),
+		_c20("add", 6, 6, "thorough", 2400), _c20("survive", 6, 6, "thorough", 2400),
+		_c20("get", 6, 6, "thorough", 2400), _c20("gos", 6, 6, "thorough", 2400),
+		_c20("add", 7, 8, "thorough", 2400), _c20("add", 8, 8, "thorough", 2400), _c20("get", 8, 8, "thorough", 2400), _c20("gos", 8, 8, "thorough", 2400), _c20("survive", 8, 8, "thorough", 2400),
 	],
 	"meta": {
 		"assumptions": ["std::collections::HashMap replaced by an association-list model with the same API (hashing and Hash impls are outside the claim)",
@@ -182,11 +186,11 @@ PROPS["C01"] = {
 		for z, t in [(0, "quick"), (1, "quick"), (2, "thorough"), (5, "thorough"), (8, "quick"), (12, "thorough"), (16, "thorough"), (24, "thorough"), (31, "quick")]
 	] + [
 		H(f"c01_tile_id_roundtrip_z{z}", CONT, f"{PT}::tile_id::kani_harness", funcs=["coord_to_tile_id", "tile_id_to_coord", "rotate"], bounds=f"zoom {z}, every x, y < 2^{z}", sample="x, y symbolic", tier=t)
-		for z, t in [(0, "quick"), (1, "quick"), (3, "quick"), (6, "thorough"), (10, "thorough")]
+		for z, t in [(0, "quick"), (1, "quick"), (3, "quick"), (6, "thorough"), (10, "thorough"), (14, "thorough"), (20, "thorough"), (31, "thorough")]
 	],
 	"meta": {
 		"assumptions": ["layout oracles are big/little-endian field readers and a varint codec written in the harness from the published versatiles v02 / PMTiles v3 layouts"],
-		"out": ["operation order and positions of the async writers", "de-duplication of payloads < 1000 bytes", "root/leaf split at 16 KiB (depends on gzip output sizes)", "metadata", "MBTiles entirely (row flip sits inside SQL parameter expressions)", "tar and directory I/O", "> 16384 tiles", "tile id round trip above zoom 10"],
+		"out": ["operation order and positions of the async writers", "de-duplication of payloads < 1000 bytes", "root/leaf split at 16 KiB (depends on gzip output sizes)", "metadata", "MBTiles entirely (row flip sits inside SQL parameter expressions)", "tar and directory I/O", "> 16384 tiles", "tile id round trip at zoom levels other than the listed instances", "PMTiles directory serialisation (EntriesV3::serialize: no verdict within reach)"],
 	},
 }
 
@@ -317,7 +321,7 @@ PROPS["C07"] = {
 	] + [
 		H(f"c07_folder_{n}_c{c}", SRV, c07, funcs=["Folder::get_data", "Url::new", "Url::as_path"],
 			bounds=f"every request '/' + '{ch}' + {n - 1} bytes over the alphabet {{'/', '.', 'a', '%', '2', 'e', '\\\\'}}; root '/r'", sample=f"request path: first byte '{ch}' (concrete per instance), {n - 1} symbolic bytes", stubs=[PATHM], tier=t, timeout=to, expect_cover=False)
-		for n, t, to in [(2, "quick", None), (3, "quick", None), (4, "thorough", 1200), (5, "thorough", 2400), (6, "thorough", 3000)]
+		for n, t, to in [(2, "quick", None), (3, "quick", None), (4, "thorough", 1200), (5, "thorough", 2400), (6, "thorough", 3000), (7, "thorough", 3000), (8, "thorough", 3000), (9, "thorough", 3000)]
 		for c, ch in enumerate(["/", ".", "a", "%", "2", "e", "\\\\"])
 	],
 	"meta": {
